@@ -53,7 +53,8 @@ TRUSTED = ['the regex proxies that record which statement pattern matched (harne
 WS_PLAIN = ['', ' ', '  ', '    ', '\t', '        ', ' \t']
 WS_EXOTIC = ['\x0b', '\x0c', '\x1c', '\x1d', '\x1e', '\x1f', '\x85', '\xa0', '\u1680', '\u2000', '\u2003', '\u200a', '\u2028',
              '\u2029', '\u202f', '\u205f', '\u3000', '\r']
-COMMENTS = ['', '   ', '\t', '#', '# a comment', '    # indented comment', '# ends with a backslash \\', '#\\', ' \t ', "# 'quote", '# x = 1']
+COMMENTS = ['', '   ', '\t', '#', '# a comment', '    # indented comment', '# ends with a backslash \\', '#\\', ' \t ', "# 'quote", '# x = 1',
+            '# page \x0c break = 2', '# ls \u2028 x = 3', '\x0c', '\x0c# after a form feed', '# cr \r y = 4', '\u2028', '# nel \x85 \\', '\x1e# rs']
 BLOCK_ERRORS = {
     'function': 'Missing endfunction statement', 'endfunction': 'No matching function definition', 'if': 'Missing endif statement',
     'elif': 'No matching if statement', 'else': 'No matching if statement', 'endif': 'No matching if statement',
@@ -271,7 +272,9 @@ def jsonable(x):
 IDENTS = ['a', 'b', 'c', 'x', 'y', 'i', 'n', 'foo', 'bar_1', '_t', 'value', 'arr', 'ifx', 'returned', 'jumper', 'endifx', 'inn', 'forx', 'e1']
 FUNCS = ['arrayNew', 'arrayPush', 'mathMax', 'stringNew', 'f1', 'gg', 'systemLog', 'objectGet']
 STR_BODIES = ['', 'abc', 'a b', '  two  blanks ', '#not a comment', 'colon: here:', 'paren ) (', "it\\'s", 'back\\\\', 'x = 1', 'tab\there',
-              'jump x', 'endif', ' \\\\', 'http://u/?a=1&b=2', '"dq"', 'ends with escaped backslash \\\\', 'return', "\\'", ' ', '...', '<x>']
+              'jump x', 'endif', ' \\\\', 'http://u/?a=1&b=2', '"dq"', 'ends with escaped backslash \\\\', 'return', "\\'", ' ', '...', '<x>',
+              # characters other text APIs treat as line boundaries or blanks (never line ends / token separators inside a literal)
+              'ls\u2028ps\u2029', 'ff\x0cvt\x0b', 'rs\x1e gs\x1d fs\x1c', 'nel\x85', 'cr\rmid', 'nbsp\xa0 ideographic\u3000', 'zw\u200b bom\ufeff']
 DSTR_BODIES = ['', 'abc', "it's", 'say \\"hi\\"', ' # : ) ', 'a  b']
 NUMBERS = ['0', '1', '2', '10', '3.14', '1e+3', '7.', '42']
 BINOPS = ['**', '*', '/', '%', '+', '-', '<=', '<', '>=', '>', '==', '!=', '&&', '||']
@@ -541,6 +544,102 @@ def same_program(base, other):
     return other[0] == base[0] and other[1] == base[1]
 
 
+# ---------------------------------------------------------------------------------------------------------------------
+# Input forms (round 4): the SAME physical lines handed to parse_script as one string, as one chunk per line, as a
+# tuple / generator, re-terminated with CRLF / LF, re-grouped into chunks.  "Line boundary" is taken from the property
+# text: a line ends at LF or CRLF and nowhere else - in particular not at the characters other text APIs treat as line
+# boundaries (VT, FF, FS, GS, RS, NEL, LS, PS, a CR without LF).
+# ---------------------------------------------------------------------------------------------------------------------
+
+def ref_lines(text):
+    """Reference physical lines, written from the property statement (no regex, no splitlines): cut at every LF, a CR
+    immediately before that LF belongs to the terminator."""
+    parts = text.split('\n')
+    return [p[:-1] if p.endswith('\r') else p for p in parts[:-1]] + [parts[-1]]
+
+
+def is_plain_line(line):
+    """One physical line that is a logical line by itself: not blank, not a comment, not continued (str.strip white space =
+    regex white space is compared for every code point by the charclass stream)."""
+    return '\n' not in line and line.strip() != '' and not line.lstrip().startswith('#') and not line.rstrip().endswith('\\')
+
+
+def input_forms(rng, lines, text=None):
+    """(how, chunks) - input forms whose physical lines are exactly `lines`"""
+    if text is not None:
+        yield 'str', [text]
+    yield 'tuple', list(lines)
+    yield 'generator', list(lines)
+    yield 'str', ['\r\n'.join(lines)]
+    lf_ok = not any(ln.endswith('\r') for ln in lines[:-1])      # "x\r" + LF would read as a CRLF terminator
+    if lf_ok:
+        yield 'str', ['\n'.join(lines)]
+    if len(lines) > 1:
+        # chunks of consecutive lines (terminator dropped at a cut), each chunk alone or the whole as list
+        cuts = {k for k in range(len(lines) - 1) if rng.random() < 0.4}
+        chunks = []
+        cur = ''
+        for k, ln in enumerate(lines):
+            cur += ln
+            if k == len(lines) - 1 or k in cuts:
+                chunks.append(cur)
+                cur = ''
+            else:
+                cur += '\n' if lf_ok and rng.random() < 0.5 else '\r\n'
+        yield 'list', chunks
+
+
+def check_input_forms(ctx, rng, lines, text=None):
+    """ORACLE input-form: every input form of the same physical lines yields the identical model (same error for a rejected
+    program).  Returns the number of forms tried."""
+    base = run_parse(list(lines))
+    n = 0
+    for how, chunks in input_forms(rng, lines, text):
+        n += 1
+        res = run_parse(feed(how, chunks))
+        if not same_program(base, res):
+            ctx.witness('input-form', {'lines': list(lines), 'chunks': chunks, 'as': how}, brief(base), brief(res),
+                        oracle_detail='one chunk per physical line (list) vs the same lines as ' + how)
+    return n
+
+
+def check_line_atomic(ctx, line):
+    """ORACLE only-lf-crlf-end-a-line: a text without LF that is neither blank, comment nor continued is ONE logical line, equal
+    to itself, however it is passed (observed: the lines offered to the statement cascade)."""
+    for how in ('str', 'list'):
+        offered, _ = impl_logical_lines(feed(how, [line]))
+        if offered != [line]:
+            ctx.witness('only-lf-crlf-end-a-line', {'line': line, 'as': how}, [line], offered)
+            return False
+    return True
+
+
+_ALIEN = []
+
+
+def alien_chars():
+    """Every character (LF excluded) that some text API may take for a line boundary or a blank: str.isspace, str.splitlines
+    boundaries, Unicode categories Zs / Zl / Zp / Cc / Cf (computed, not listed)."""
+    if not _ALIEN:
+        import unicodedata
+        for c in range(0x110000):
+            if 0xd800 <= c < 0xe000 or c == 0x0a:
+                continue
+            ch = chr(c)
+            if ch.isspace() or unicodedata.category(ch) in ('Zs', 'Zl', 'Zp', 'Cc', 'Cf') or len(('a' + ch + 'b').splitlines()) > 1:
+                _ALIEN.append(ch)
+    return _ALIEN
+
+
+ALIEN_TEMPLATES = [
+    ('string', "s = 'p{c}q'"), ('dstring', 's = "p{c}q"'), ('comment', '# note {c} x = 2'), ('comment-lead', '{c}# note'), ('bracket', 'v = [p{c}q] + 1'),
+    ('indent', '{c}v = 1'), ('trailing', 'v = 1{c}'), ('after-backslash', 'v = 1 + \\{c}\n2'), ('before-backslash', 'v = 1 +{c}\\\n2'),
+    ('continued-indent', 'v = 1 + \\\n{c}2'), ('between-tokens', 'v ={c}1'), ('include', "include 'p{c}q.bare'"), ('include-system', 'include <p{c}q>'),
+    ('call-arg', "f('x{c}', y)"), ('label', 'lbl{c}:'), ('return', 'return{c}1'), ('if-head', "if x == '{c}':\nendif"), ('blank-line', '{c}'),
+    ('function-head', 'function f(a,{c}b):\nendfunction'), ('doubled', "s = '{c}{c}' + '{c}'"),
+]
+
+
 def brief(res):
     out = jsonable(res)
     text = json.dumps(out, ensure_ascii=True)
@@ -585,6 +684,8 @@ def layout_cases(ctx, rng, name, logical, n_rewrites, exhaustive_chunks):
         elif mode == 2:    # one continuation, at a chosen gap of a chosen line
             phys = physical_lines(rng, logical, indent=[''], trailing=[''], breaks=0.0, comments_p=0.0,
                                   break_at=(rng.randrange(len(logical)), rng.randrange(64)))
+        elif mode == 5:    # indentation / trailing blanks from every white-space class (controls, NEL, NBSP, Unicode spaces, LS/PS, lone CR)
+            phys = physical_lines(rng, logical, indent=plain + WS_EXOTIC, trailing=['', ''] + WS_EXOTIC, breaks=rng.choice([0.0, 0.3]), comments_p=0.3)
         else:
             phys = physical_lines(rng, logical, indent=plain, trailing=['', '', ' ', '\t '], breaks=rng.choice([0.1, 0.3, 0.6]), comments_p=0.3)
         eol = ['lf', 'crlf', 'mixed'][rng.randrange(3)]
@@ -647,6 +748,12 @@ def stream_layout(ctx):
                           'base:' + base[0]] + [f'has:{k}' for k in sorted(kinds)])
             if not same_program(base, res):
                 ctx.witness('layout', {'original': original, 'chunks': chunks, 'as': how}, brief(base), brief(res))
+            # the chunk sequence as ONE STRING (a chunk boundary is a line boundary)
+            if len(chunks) > 1 and rng.random() < 0.25:
+                one = rng.choice(['\n', '\r\n']).join(chunks)
+                res1 = run_parse(one)
+                if not same_program(base, res1):
+                    ctx.witness('layout', {'original': original, 'chunks': [one], 'as': 'str'}, brief(base), brief(res1))
             # readlines-style chunks (each keeps its terminator): outside the property, model equality still expected
             if phys is not None and rng.random() < 0.15:
                 keep = [p + '\n' for p in phys]
@@ -766,6 +873,39 @@ def stream_history(ctx, rng):
                 ctx.witness('parse-independent-of-history', {'kind': kind, 'text': text, 'history': [culprit] if culprit else None},
                             alone, here[pos] if json.loads(json.dumps(here[pos])) != alone else fresh[pos])
             pos += 1
+    rejected_inputs_leave_nothing(ctx, st)
+
+
+# rejected texts (every way an expression / a script line can be abandoned half-way) and accepted texts that use the same constructs
+REJECTED = [('expr', t) for t in ['(a', '((1', '(((((((((( 1', 'f((x)', "('x", '(1 +', 'f(1,', 'f(g(h(', '1 +', '[a', '(a))', '-(', '!(', 'a b', '((a) b)', "f('", '(1 2)']] + \
+           [('script', t) for t in ['x = (1', 'x = ((1)', 'if (a:', 'if (a):\nx = (', 'function f(a):\nx = (1', 'while (a):', 'for x in (y:', 'return (', 'jumpif ((a) l',
+                                    'x = 1 + \\', 'if a:\nif b:\nif c:', "include 'a", 'x = f(\\\n(']]
+ACCEPTED = [('expr', t) for t in ['(1)', '((a))', '(' * 30 + '1' + ')' * 30, 'f((x), (y))', '-(1) + !(2)', "f(g(h('x')))", '[a b] + (c)']] + \
+           [('script', t) for t in ['x = ((1))', 'if (a):\nx = (1)\nendif', 'function f(a):\nreturn (a)\nendfunction', 'while (a):\nbreak\nendwhile',
+                                    'if a:\nif b:\nif c:\nx = 1\nendif\nendif\nendif', 'x = f( \\\n(1))']]
+
+
+def rejected_inputs_leave_nothing(ctx, st):
+    """no state between calls, the error path: an accepted text gives the same result after one rejected text was parsed many times
+    (whatever a parse run counts, opens or remembers must be gone when it raises); baseline from a fresh interpreter"""
+    rep = ctx.scale(300, 3000)
+    baseline = fw.fresh_parse(ACCEPTED)
+    found = 0
+    for kind, bad in REJECTED:
+        run = run_parse if kind == 'script' else run_expr
+        for _ in range(rep):
+            run(bad)
+        for (gkind, good), want in zip(ACCEPTED, baseline):
+            if gkind != kind:
+                continue
+            got = jsonable((run_parse if gkind == 'script' else run_expr)(good))
+            st.case([kind, bad, rep, good], nontrivial=True, tags=['after-rejected', kind, got[0]])
+            if got != want and found < 3:
+                history = [bad] * rep
+                if fw.fresh_parse([(kind, h) for h in history] + [(kind, good)])[-1] != want:
+                    found += 1
+                    ctx.witness('parse-independent-of-history', {'kind': kind, 'text': good, 'history': history}, want, got,
+                                oracle_detail=f'{rep} x the rejected text {bad!r}, then the accepted text')
 
 
 SOUP = ['v = 1', 'w = f(x)', "s = 'a # b'", 'f(x)', 'lbl:', 'jump lbl', 'jumpif (x) lbl', '?bad', 'x y', "v = 'open", 'a = 1 +', 'return 5',
@@ -835,7 +975,12 @@ def stream_lines(ctx):
         st.case(chunks, nontrivial='\\' in joined and ('#' in joined or '\n\n' in joined or '\n\r\n' in joined),
                 tags=[f'chunks:{len(chunks)}', 'dangling' if resp['error'] else 'complete', f'logical:{min(len(resp["lines"]), 6)}'])
         impl_phys = [ln for ch in chunks for ln in parser._R_SCRIPT_LINE_SPLIT.split(ch)]
-        impl_lines, out = impl_logical_lines(chunks)
+        # fed in a random container form: a single chunk half of the time as ONE STRING (the other branch of parse_script)
+        how, arg = as_container(rng, chunks)
+        st.hist['as:' + how] = st.hist.get('as:' + how, 0) + 1
+        impl_lines, out = impl_logical_lines(arg)
+        # oracle on the implementation alone: the same physical lines in every input form (the soups carry exotic blanks, lone CRs)
+        check_input_forms(ctx, rng, [ln for ch in chunks for ln in ref_lines(ch)], chunks[0] if len(chunks) == 1 else None)
         # expected outcome composed from the MODEL's logical lines
         stmts = []
         expected = None
@@ -858,9 +1003,61 @@ def stream_lines(ctx):
         # oracle on the implementation alone: an error names the FIRST physical line of its logical line
         bad = first_physical_line_check(chunks, out)
         if bad:
-            ctx.witness('first-physical-line', {'chunks': chunks}, 'error.line starts with the text of physical line error.line_number', bad)
+            ctx.witness('first-physical-line', {'chunks': list(chunks), 'as': how}, 'error.line starts with the text of physical line error.line_number', bad)
         if not resp['specAgrees']:
             ctx.compare('lines', {'chunks': chunks, 'what': 'Lean mirror logicalLinesL = spec'}, True, False)
+
+
+def forms_cases(ctx, rng):
+    """(tag, text) - texts for the input-form oracle"""
+    for item in load_corpus():
+        if item.get('stream') == 'forms':
+            yield 'corpus', item['text']
+    # every alien character x every place a character can stand in a script, as the middle line of a three-line text
+    for k, ch in enumerate(alien_chars()):
+        eol = '\n' if k % 2 == 0 else '\r\n'
+        for tag, tpl in ALIEN_TEMPLATES:
+            yield tag, eol.join(['a = 1'] + tpl.replace('{c}', ch).split('\n') + ['b = 2']) + (eol if k % 3 == 0 else '')
+    # generated programs (their string literals / comments carry alien characters, see STR_BODIES / COMMENTS) laid out with
+    # exotic indentation and trailing blanks, continuation breaks, any terminator mix
+    for _ in range(ctx.scale(250, 4000)):
+        logical, _ = gen_program(rng)
+        if rng.random() < 0.2:
+            logical = break_program(rng, logical)
+        phys = physical_lines(rng, logical, indent=WS_PLAIN + WS_EXOTIC, trailing=['', ''] + WS_PLAIN + WS_EXOTIC, breaks=rng.choice([0.0, 0.2, 0.5]),
+                              comments_p=0.3)
+        yield 'generated', assemble(rng, phys, ['lf', 'crlf', 'mixed'][rng.randrange(3)], set(), rng.random() < 0.5)[0]
+
+
+def stream_forms(ctx):
+    rng = ctx.rng('forms')
+    st = ctx.stream('forms', 'ONE STRING vs chunk sequences of the same physical lines: every character of str.isspace / str.splitlines boundaries / '
+                             'Unicode Zs Zl Zp Cc Cf (LF excluded; computed, ~%d characters) at every place of a script (string literals, comment, '
+                             'bracketed name, indentation, trailing, around the continuation backslash, between tokens, include url, label, '
+                             'keyword tail, blank line) + generated programs with alien characters in literals/comments and exotic '
+                             'indentation/trailing blanks; forms: str as given, one chunk per line as list/tuple/generator, str re-terminated '
+                             'with CRLF / LF, random re-grouping into chunks; also: a plain line without LF is offered to the statement cascade as '
+                             'itself (str and list); model: Text physical + logical lines of the one-string form; non-trivial = the text holds a '
+                             'character other than LF/CRLF that str.splitlines would break at, or a non-ASCII / control blank' % len(alien_chars()))
+    cases = list(forms_cases(ctx, rng))
+    resps = ctx.driver.batch([{'op': 'lines', 'chunks': [text]} for _, text in cases])
+    atomic_seen = set()
+    for (tag, text), resp in zip(cases, resps):
+        lines = ref_lines(text)
+        n = check_input_forms(ctx, rng, lines, text)
+        special = any(len(ln.splitlines()) > 1 for ln in lines) or any(ch.isspace() and ch not in ' \t\r\n' for ch in text)
+        st.case(text if len(text) < 300 else [len(text), hashlib.sha256(text.encode()).hexdigest()[:12]], nontrivial=special,
+                tags=['place:' + tag, f'forms:{n}', 'splitlines-differs' if len(text.splitlines()) != len(lines) - (1 if text.endswith('\n') else 0)
+                      else 'splitlines-agrees'])
+        for ln in lines:
+            if ln not in atomic_seen and is_plain_line(ln):
+                atomic_seen.add(ln)
+                check_line_atomic(ctx, ln)
+        # model on the one-string form (observed, not recomputed: the lines parse_script offers to its cascade)
+        impl_lines, out = impl_logical_lines(text)
+        model_lines = [t for _, t in resp['lines']]
+        ctx.compare('forms', {'text': text, 'what': 'physical lines (reference splitter) + logical lines of the one-string form'},
+                    [lines, impl_lines], [resp['phys'], model_lines if out[0] == 'ok' else model_lines[:len(impl_lines)]])
 
 
 CLASSIFY_BASE = [
@@ -943,6 +1140,10 @@ def stream_classify(ctx):
         shape, out = impl_shape(line)
         if shape is None:
             st.case(line, nontrivial=False, tags=['not-a-logical-line'])
+            if is_plain_line(line):     # neither blank, comment nor continued: the implementation broke or dropped it
+                check_line_atomic(ctx, line)
+            continue
+        if not check_line_atomic(ctx, line):     # the same line as ONE STRING
             continue
         st.case(line, nontrivial=model.get('kind') != 'expr', tags=['kind:' + str(model.get('kind')), 'src:' + src, 'out:' + out[0]])
         ctx.compare('classify', line, jsonable(shape), model)
@@ -1060,12 +1261,22 @@ def streams(ctx):
     try:
         stream_charclass(ctx)
         stream_lines(ctx)
+        stream_forms(ctx)
         stream_classify(ctx)
         stream_errmsg(ctx)
         stream_layout(ctx)
     finally:
         # the smallest failing input becomes the replay file
-        ctx.witnesses.sort(key=lambda w: len(json.dumps(w, default=str)))
+        # (the property's own layout oracles first, the one that observes the cascade through the regex proxies last)
+        # a history witness without a history, and a shipped file that fails only after what was parsed before, do not replay alone
+        rank = {'input-form': 0, 'layout': 0, 'only-lf-crlf-end-a-line': 2, 'shipped-script-parses': 3}
+
+        def key(w):
+            r = rank.get(w.get('oracle'), 1)
+            if w.get('oracle') == 'parse-independent-of-history':
+                r = 1 if w['input'].get('history') else 4
+            return (r, len(json.dumps(w, default=str)))
+        ctx.witnesses.sort(key=key)
 
 
 # ---------------------------------------------------------------------------------------------------------------------
@@ -1086,7 +1297,24 @@ def search(ctx):
             if bad:
                 ctx.witness('caret', {'line': line, 'column': col}, 'character under the caret is line[column-1]', bad)
                 return
-    # 2. layout oracle: corpus first, then many programs, small and large rewrites
+    # 2. input forms: the alien-character family, then soups of physical lines, as one string vs chunk sequences
+    before = len(ctx.witnesses)
+    atomic_seen = set()
+    for _, text in forms_cases(ctx, rng):
+        lines = ref_lines(text)
+        check_input_forms(ctx, rng, lines, text)
+        for ln in lines:
+            if ln not in atomic_seen and is_plain_line(ln):
+                atomic_seen.add(ln)
+                check_line_atomic(ctx, ln)
+        if len(ctx.witnesses) > before:
+            return
+    for _ in range(ctx.scale(20000, 100000)):
+        phys = [rng.choice(['', ''] + WS_PLAIN + WS_EXOTIC) + rng.choice(SOUP) + rng.choice(['', ''] + WS_PLAIN + WS_EXOTIC) for _ in range(rng.randint(1, 6))]
+        check_input_forms(ctx, rng, [ln for p in phys for ln in ref_lines(p)])
+        if len(ctx.witnesses) > before:
+            return
+    # 3. layout oracle: corpus first, then many programs, small and large rewrites
     programs = [item['logical'] for item in load_corpus() if item.get('stream') == 'layout']
     programs += [[ln] for ln in CLASSIFY_BASE if run_parse(ln)[0] == 'ok']
     for _ in range(ctx.scale(1500, 8000)):
@@ -1122,6 +1350,10 @@ def replay(witness):
     if oracle in ('layout', 'layout-keepends'):
         base = run_parse(inp['original'])
         return not same_program(base, run_parse(feed(inp.get('as', 'list'), inp['chunks'])))
+    if oracle == 'input-form':
+        return not same_program(run_parse(list(inp['lines'])), run_parse(feed(inp['as'], inp['chunks'])))
+    if oracle == 'only-lf-crlf-end-a-line':
+        return impl_logical_lines(feed(inp['as'], [inp['line']]))[0] != [inp['line']]
     if oracle == 'stateless':
         return run_parse(inp['text']) != run_parse(inp['text'])
     if oracle == 'parse-independent-of-history':
@@ -1137,7 +1369,7 @@ def replay(witness):
         except Exception:  # pylint: disable=broad-except
             return True
     if oracle == 'first-physical-line':
-        return first_physical_line_check(inp['chunks'], run_parse(inp['chunks'])) is not None
+        return first_physical_line_check(inp['chunks'], run_parse(feed(inp.get('as', 'list'), inp['chunks']))) is not None
     if oracle == 'only-parser-errors':
         return run_parse(inp['original'])[0] == 'exc'
     if oracle == 'shipped-script-parses':
@@ -1150,7 +1382,10 @@ LEVEL_TEXT = ('Theorems for all texts: physical lines do not depend on LF vs CRL
               'runs"; inserting comment/blank lines anywhere (also inside a continued line) keeps the logical line texts and shifts indices as '
               'expected; a continued line equals its parts joined by one blank; the statement cascade ignores indentation (and, for the '
               'statement kinds without a free-text tail, trailing blanks). Tied to parser.py by the pinned pattern sources (Gen/Regex), by '
-              'regex-proxy observation of the logical lines / first matching pattern / groups, and by the layout oracle run on the implementation.')
+              'regex-proxy observation of the logical lines / first matching pattern / groups, and by the layout oracle run on the implementation. '
+              'Round 4: the one-string branch of parse_script is exercised with every character other text APIs take for a line boundary or a '
+              'blank (stream forms, oracles input-form and only-lf-crlf-end-a-line; the lines stream feeds str/list/tuple/generator), and '
+              'the error path of "no state between calls" (an accepted text after many rejected ones, fresh-interpreter baseline).')
 LEVEL_NOTE = ('Trusted: Lean kernel; extract.py; this harness. Modelled not verified: CPython re (recognisers re-implemented by hand), Unicode '
               'white-space / word tables (exhaustively compared each run). The lift of layout independence through expression TEXT '
               '(parse_expression skips blanks before every token) belongs to ExprParse: here it is a hypothesis of leading_ws_irrelevant and is '
